@@ -1,32 +1,202 @@
 package main
 
 import (
+	"fmt"
+	"sync"
+
 	"verif/harness/internal/proto"
 )
 
 // catalogue of manifests the generator draws from
 var (
-	oNs1  = sysObj{ID: jid{"", "ns1", "", "Namespace"}}
-	oA    = sysObj{ID: jid{"ns1", "a", "", "ConfigMap"}}
-	oB    = sysObj{ID: jid{"ns1", "b", "", "ConfigMap"}, Deps: []jid{{"ns1", "a", "", "ConfigMap"}}}
-	oC    = sysObj{ID: jid{"ns1", "c", "", "ConfigMap"}, Deps: []jid{{"ns1", "b", "", "ConfigMap"}}}
-	oD    = sysObj{ID: jid{"ns2", "d", "", "ConfigMap"}}
-	oR    = sysObj{ID: jid{"", "sys:r", "rbac.authorization.k8s.io", "ClusterRole"}}
-	oK    = sysObj{ID: jid{"ns1", "k", "", "ConfigMap"}, Keep: true}
-	oL    = sysObj{ID: jid{"ns1", "l", "", "ConfigMap"}, Detach: true}
-	oS    = sysObj{ID: jid{"ns1", "s", "", "Secret"}, Deps: []jid{{"ns1", "k", "", "ConfigMap"}}}
-	oNs2  = sysObj{ID: jid{"", "ns2", "", "Namespace"}}
-	sysCatalogue = []sysObj{oNs1, oA, oB, oC, oD, oR, oK, oL, oS}
+	oNs1 = sysObj{ID: jid{"", "ns1", "", "Namespace"}}
+	oNs2 = sysObj{ID: jid{"", "ns2", "", "Namespace"}}
+	oA   = sysObj{ID: jid{"ns1", "a", "", "ConfigMap"}}
+	oB   = sysObj{ID: jid{"ns1", "b", "", "ConfigMap"}, Deps: []jid{{"ns1", "a", "", "ConfigMap"}}}
+	oC   = sysObj{ID: jid{"ns1", "c", "", "ConfigMap"}, Deps: []jid{{"ns1", "b", "", "ConfigMap"}}}
+	oD   = sysObj{ID: jid{"ns2", "d", "", "ConfigMap"}}
+	oR   = sysObj{ID: jid{"", "sys:r", "rbac.authorization.k8s.io", "ClusterRole"}}
+	oK   = sysObj{ID: jid{"ns1", "k", "", "ConfigMap"}, Keep: true}
+	oL   = sysObj{ID: jid{"ns1", "l", "", "ConfigMap"}, Detach: true}
+	oS   = sysObj{ID: jid{"ns1", "s", "", "Secret"}, Deps: []jid{{"ns1", "k", "", "ConfigMap"}}}
+	oE   = sysObj{ID: jid{"ns2", "e", "", "Secret"}, Deps: []jid{{"ns2", "d", "", "ConfigMap"}, {"", "sys:r", "rbac.authorization.k8s.io", "ClusterRole"}}}
+	oM   = sysObj{ID: jid{"ns1", "m", "", "ConfigMap"}, MutFrom: &jid{"ns1", "a", "", "ConfigMap"}}
+
+	sysCatalogue = []sysObj{oNs1, oNs2, oA, oB, oC, oD, oR, oK, oL, oS, oE, oM}
 )
 
-func genSys(out *proto.Out, rng *proto.Rng, tier string) {
+func sysInvalid(rng *proto.Rng) []sysObj {
+	switch rng.Intn(9) {
+	case 0: // missing name
+		return []sysObj{{ID: jid{"ns1", "", "", "ConfigMap"}}}
+	case 1: // namespaced kind without namespace
+		return []sysObj{{ID: jid{"", "nons", "", "ConfigMap"}}}
+	case 2: // cluster-scoped kind with namespace
+		return []sysObj{{ID: jid{"ns1", "nsx", "", "Namespace"}}}
+	case 3: // unknown type
+		return []sysObj{{ID: jid{"ns1", "foo", "example.com", "Foo"}}}
+	case 4: // malformed dependency reference
+		return []sysObj{{ID: jid{"ns1", "bad", "", "ConfigMap"}, DepsRaw: "not/a/valid/ref"}}
+	case 5: // external dependency
+		return []sysObj{{ID: jid{"ns1", "ext", "", "ConfigMap"}, Deps: []jid{{"ns1", "absent", "", "ConfigMap"}}}}
+	case 6: // duplicate dependency
+		return []sysObj{{ID: jid{"ns1", "dup", "", "ConfigMap"}, Deps: []jid{{"ns1", "a", "", "ConfigMap"}, {"ns1", "a", "", "ConfigMap"}}}, oA}
+	case 7: // cycle
+		return []sysObj{
+			{ID: jid{"ns1", "x", "", "ConfigMap"}, Deps: []jid{{"ns1", "y", "", "ConfigMap"}}},
+			{ID: jid{"ns1", "y", "", "ConfigMap"}, Deps: []jid{{"ns1", "x", "", "ConfigMap"}}},
+			{ID: jid{"ns1", "z", "", "ConfigMap"}, Deps: []jid{{"ns1", "x", "", "ConfigMap"}}}}
+	default: // missing kind
+		return []sysObj{{ID: jid{"ns1", "nokind", "", ""}}}
+	}
+}
+
+func addObj(objs []sysObj, o sysObj) []sysObj {
+	for _, x := range objs {
+		if x.ID == o.ID {
+			return objs
+		}
+	}
+	return append(objs, o)
+}
+
+func genSysHistory(rng *proto.Rng) sysIn {
+	in := sysIn{Pre: []sysObj{oNs2}}
+	if rng.Chance(4, 5) {
+		in.Pre = append(in.Pre, oNs1)
+	}
+	if rng.Chance(1, 4) {
+		// objects somebody else created: unowned or owned by another inventory
+		for k := 1 + rng.Intn(2); k > 0; k-- {
+			o := proto.Pick(rng, sysCatalogue[2:])
+			o.Owner = proto.Pick(rng, []string{"", "other-inv"})
+			o.Rev = 7
+			in.Pre = addObj(in.Pre, o)
+		}
+	}
+	nRuns := 1 + rng.Intn(3)
+	for r := 0; r < nRuns; r++ {
+		run := sysRun{Kind: "apply", Objs: []sysObj{}, Ctrl: map[string]string{}, Del: map[string]string{}}
+		if (r == nRuns-1 && rng.Chance(1, 3)) || rng.Chance(1, 10) {
+			run.Kind = "destroy"
+		}
+		if run.Kind == "apply" {
+			n := 1 + rng.Intn(5)
+			for k := 0; k < n; k++ {
+				o := proto.Pick(rng, sysCatalogue[1:])
+				if rng.Chance(1, 12) {
+					o = oNs1
+				}
+				if rng.Chance(1, 3) {
+					o.Rev = r + 1
+				}
+				run.Objs = addObj(run.Objs, o)
+				// usually bring the dependencies along
+				if rng.Chance(3, 4) {
+					for _, d := range o.Deps {
+						for _, c := range sysCatalogue {
+							if c.ID == d {
+								run.Objs = addObj(run.Objs, c)
+							}
+						}
+					}
+					if o.MutFrom != nil {
+						run.Objs = addObj(run.Objs, oA)
+					}
+				}
+			}
+			if rng.Chance(1, 4) {
+				for _, o := range sysInvalid(rng) {
+					run.Objs = addObj(run.Objs, o)
+				}
+			}
+		}
+		run.Opts = sysOpts{NoPrune: rng.Chance(1, 7), Policy: rng.Intn(3), SkipInvalid: rng.Chance(1, 2), SSA: rng.Chance(1, 5),
+			EmitStatus: rng.Chance(1, 4), Foreground: rng.Chance(1, 5)}
+		if rng.Chance(1, 7) {
+			run.Opts.Dry = 1 + rng.Intn(2)
+		}
+		needTimeout := false
+		for _, o := range sysCatalogue {
+			k := idKey(o.ID)
+			if rng.Chance(1, 5) {
+				b := proto.Pick(rng, []string{"never", "stale", "failed", "failed-current", "replaced"})
+				run.Ctrl[k] = b
+				if b == "never" || b == "stale" || b == "replaced" {
+					needTimeout = true
+				}
+			}
+			if rng.Chance(1, 7) {
+				b := proto.Pick(rng, []string{"finalizer", "finalizer-gone"})
+				run.Del[k] = b
+				if b == "finalizer" {
+					needTimeout = true
+				}
+			}
+		}
+		run.Opts.Timeout = needTimeout || rng.Chance(1, 6)
+		switch rng.Intn(12) {
+		case 0, 1, 2, 3:
+			run.FailMut = []int{rng.Intn(8)}
+		case 4:
+			run.FailMut = []int{rng.Intn(5), 1 + rng.Intn(8)}
+		case 5:
+			run.FailRead = []int{rng.Intn(10)}
+		}
+		switch rng.Intn(16) {
+		case 0:
+			run.Cancel = "before-sync"
+		case 1:
+			run.Cancel = fmt.Sprintf("wait:%d:%d", rng.Intn(3), rng.Intn(2))
+		case 2:
+			run.Cancel = fmt.Sprintf("mut:%d", rng.Intn(6))
+		case 3:
+			run.WatchErr = fmt.Sprintf("wait:%d:%d", rng.Intn(3), rng.Intn(2))
+		case 4:
+			run.Cancel = fmt.Sprintf("wait:%d:end", rng.Intn(3))
+		}
+		if r > 0 && rng.Chance(1, 15) {
+			run.EnvDel = []jid{proto.Pick(rng, sysCatalogue[2:]).ID}
+		}
+		in.Runs = append(in.Runs, run)
+	}
+	return in
+}
+
+func sysHandWritten() []sysIn {
 	pre := []sysObj{oNs1, oNs2}
-	// hand-written histories first
-	hist := []sysIn{
+	return []sysIn{
 		{Pre: pre, Runs: []sysRun{{Kind: "apply", Objs: []sysObj{oA, oB}}}},
 		{Pre: pre, Runs: []sysRun{{Kind: "apply", Objs: []sysObj{oA, oB, oC}}, {Kind: "apply", Objs: []sysObj{oA}}, {Kind: "destroy"}}},
+		{Pre: pre, Runs: []sysRun{{Kind: "apply", Objs: []sysObj{oA, oB, oK, oS}}, {Kind: "apply", Objs: []sysObj{oA}, Opts: sysOpts{NoPrune: true}}, {Kind: "apply", Objs: []sysObj{oA}}}},
+		{Pre: pre, Runs: []sysRun{{Kind: "apply", Objs: []sysObj{oK, oS, oL}}, {Kind: "destroy"}}},
+		{Pre: []sysObj{oNs2}, Runs: []sysRun{{Kind: "apply", Objs: []sysObj{oNs1, oA, oB}}, {Kind: "destroy"}}},
 	}
-	for _, h := range hist {
-		out.Emit("sys", h, runSys(h))
+}
+
+func genSys(out *proto.Out, rng *proto.Rng, tier string) {
+	cases := sysHandWritten()
+	n := 500
+	if tier == "thorough" {
+		n = 8000
+	}
+	for i := 0; i < n; i++ {
+		cases = append(cases, genSysHistory(rng))
+	}
+	res := make([]map[string]any, len(cases))
+	var wg sync.WaitGroup
+	sem := make(chan struct{}, 16)
+	for i := range cases {
+		wg.Add(1)
+		sem <- struct{}{}
+		go func(i int) {
+			defer wg.Done()
+			defer func() { <-sem }()
+			res[i] = runSys(cases[i])
+		}(i)
+	}
+	wg.Wait()
+	for i := range cases {
+		out.Emit("sys", cases[i], res[i])
 	}
 }
